@@ -396,6 +396,12 @@ impl TextResourceBuilder {
                     serde_path_to_error::deserialize(deserializer);
                 match result {
                     Ok(mut builder) => {
+                        if builder.text.is_none() {
+                            // without text the recursion step below would read this same file again, forever
+                            return Err(StamError::OtherError(
+                                "TextResourceBuilder: the included STAM JSON file for the text resource holds no text",
+                            ));
+                        }
                         //recursion step into the new builder:
                         if self.id.is_some() && builder.id.is_none() {
                             builder.id = self.id;
